@@ -127,22 +127,42 @@ func (x *ctx) robust(dir, label, what string, live []byte) {
 				x.viol(prog.PanicKey(p, st), "%s [%s]: panicked: %v\n%s", what, label, p, trim(st))
 			}
 		}()
+		// What the checkpoint has to produce: the database file as it is, overlaid with the frames of the log up to
+		// its last valid commit frame and cut to that frame's size (the reference scanner applies SQLite's rules).
+		dbPath := filepath.Join(dir, "dbs", "db")
+		var want *oracle.Image
+		var wantErr error
+		if live == nil {
+			want, wantErr = oracle.LogicalImage(readFile(filepath.Join(dbPath, "database")), readFile(filepath.Join(dbPath, "wal")), x.c.PageSize)
+		}
 		if err := n.Start(); err != nil {
 			x.class(what + "/open-error")
 			return
 		}
 		started = true
+		compare := false
 		if live != nil {
 			lab.WaitFor(time.Second, n.Store.IsPrimary)
 			if db := n.DB("db"); db != nil {
+				want, wantErr = oracle.LogicalImage(readFile(filepath.Join(dbPath, "database")), live, x.c.PageSize)
 				_ = os.WriteFile(db.WALPath(), live, 0o666)
 				ctx, cancel := context.WithTimeout(context.Background(), 5*time.Second)
 				err := n.Store.Recover(ctx)
 				cancel()
 				x.class(fmt.Sprintf("%s/recover-err=%v", what, err != nil))
+				compare = err == nil
 			}
 		} else {
 			x.class(what + "/opened")
+			compare = true
+		}
+		if compare && wantErr == nil && want != nil {
+			got, err := oracle.LogicalImage(readFile(filepath.Join(dbPath, "database")), readFile(filepath.Join(dbPath, "wal")), x.c.PageSize)
+			if err != nil {
+				x.viol("checkpoint-image-unreadable/"+what, "%s [%s]: the database cannot be read back after the checkpoint: %v", what, label, err)
+			} else if ok, d := got.Equal(want); !ok {
+				x.viol("checkpoint-image/"+what, "%s [%s]: after LiteFS's checkpoint the database (%d pages) is not the file overlaid with the log's committed frames (%d pages): %s", what, label, got.N(), want.N(), d)
+			}
 		}
 	}()
 	if started {
@@ -882,6 +902,10 @@ func TestCheck(t *testing.T) {
 				Case{Kind: "wal", PageSize: ps, Start: 3, Mode: "mut", Only: -1, WOps: []prog.Op{w([]uint32{1, 2, 2}, 0, "commit", be), w([]uint32{3, 1, 4}, 4, "commit", be), w([]uint32{2, 3}, 0, "rollback", be)}},
 				Case{Kind: "wal", PageSize: ps, Start: 3, Mode: "mut", Only: -1, WOps: []prog.Op{w([]uint32{1, 2, 3}, 0, "commit", be), {Kind: "ckpt", Mode: "RESTART"}, w([]uint32{2}, 0, "commit", be)}},
 			)
+			if !be {
+				// the log holds a transaction that grew the database and a later one that shrank it below those pages
+				cases = append(cases, Case{Kind: "wal", PageSize: ps, Start: 3, Mode: "mut", Only: -1, WOps: []prog.Op{w([]uint32{1, 2, 4, 5, 6}, 6, "commit", be), w([]uint32{1, 2}, 3, "commit", be)}})
+			}
 		}
 	}
 
